@@ -132,6 +132,9 @@ def configure_v2(config: dict[str, Any]) -> None:
     # output is mandatory
     config["output"]  # Raise KeyError if missing
 
+    # forcing is mandatory
+    config["forcing"]  # Raise KeyError if missing
+
     # Handle non-orthogonality
 
     # If grid["filename"] is missing, use forcing["filename"]
